@@ -542,11 +542,17 @@ class World:
             return True
         return NotImplemented
 
-    def opaque_sig(self, name, ret='Val', log=False):
+    def opaque_sig(self, name, ret='Val', log=False, alloc=False):
         """Declare method `name` of opaque objects as an uninterpreted
         function of the receiver and its (boxed) arguments; with log=True
-        every call is appended to the ghost call log (effectful callee)."""
+        every call is appended to the ghost call log (effectful callee).
+        alloc=True: the method ALLOCATES - the k-th call (ghost counter
+        ncalls("m.<name>")) returns the object `m.<name>#(recv, args, k)`,
+        distinct for distinct k."""
         from . import models
+        if alloc:
+            self.alloc_sigs = getattr(self, 'alloc_sigs', set()) | {
+                'm.' + name}
 
         def call(recv, args, kw, it):
             self.trusted_used.add('opaque method .%s() uninterpreted' % name)
@@ -555,6 +561,16 @@ class World:
             if kw:
                 sym += '$' + '$'.join(sorted(kw))
                 extra = tuple(kw[k] for k in sorted(kw))
+            if alloc and not it.spec:
+                k = it.ncalls.get('m.' + name, z3.IntVal(0))
+                r = models.apply_uf(sym + '#', (recv,) + tuple(args) + extra
+                                    + (SInt(k),), ret)
+                it.ncalls['m.' + name] = z3.simplify(k + 1)
+                # (objects of different calls are different terms; their
+                # distinctness is not asserted - no contract needs it)
+                if log:
+                    it.calls.append((sym, (recv,) + tuple(args) + extra, r))
+                return r
             r = models.apply_uf(sym, (recv,) + tuple(args) + extra, ret)
             if log:
                 it.calls.append((sym, (recv,) + tuple(args) + extra, r))
